@@ -1195,6 +1195,8 @@ package vm
 //@   option trusted
 //@   requires [stack]  callContext != nil && callContext.stack != nil && len(callContext.stack.data) >= this.minStack && len(callContext.stack.data) <= this.maxStack
 //@   requires [static] interpreter != nil && (interpreter.readOnly ==> !this.writes)
+//@   # CALL (0xf1) transferring a value is a write as well: not executed in a static frame
+//@   requires [staticcall] interpreter.readOnly && this == interpreter.jumpTable[241] ==> callContext.stack.data[len(callContext.stack.data)-3] == 0
 //@   requires [pc]     pc != nil
 //@   ensures [readonly] interpreter.readOnly == old(interpreter.readOnly)
 //@   ensures [evm]      interpreter.evm == old(interpreter.evm) && interpreter.evm.depth == old(interpreter.evm.depth)
@@ -1249,6 +1251,7 @@ package vm
 //@   # memory-size function also has a dynamic gas function (which charges for and bounds the expansion)
 //@   requires [table] in.jumpTable[241] != nil ==> in.jumpTable[241].minStack >= 3
 //@   requires [table2] forall o int :: 0 <= o && o < 256 && in.jumpTable[o] != nil && in.jumpTable[o].memorySize != nil ==> in.jumpTable[o].dynamicGas != nil
+//@   requires [table3] forall o int :: 0 <= o && o < 256 && o != 241 && in.jumpTable[241] != nil ==> in.jumpTable[o] != in.jumpTable[241]
 //@   loop 0: invariant in.evm == old(in.evm) && in.evm.depth == old(in.evm.depth) + 1 && in.readOnly == (old(in.readOnly) || readOnly)
 //@   loop 0: invariant callContext.stack == stack && callContext.memory == mem && callContext.contract == contract
 //@   loop 0: invariant in.jumpTable == old(in.jumpTable) && samecomp("vm.operation")
